@@ -26,9 +26,9 @@ var scanRows = map[string]string{
 func scanTable(c *core.Ctx) (rs rows, runs int, lit *ssa.Function, undecided string) {
 	rs = rows{}
 	meta := c.Named("component_definition", "Meta")
-	scan := c.DeclaredMethod(meta, "scanFields")
-	if scan == nil {
-		return rs, 0, nil, "Meta.scanFields not found"
+	scan := fieldScanner(c)
+	if scan == nil || meta == nil {
+		return rs, 0, nil, "the routine that fills Meta.Fields was not found (or there are several)"
 	}
 	// the per-field callback: the function value scanFields (or a helper it is split into) hands to a struct-field
 	// iterator of util/reflectx - a literal, or a method value of a parameter object
@@ -951,6 +951,9 @@ func c11HolderReaders(c *core.Ctx, r *core.Report) {
 				okR = true // an accessor of the holder that nothing in scope calls: processing cannot depend on it
 			}
 			_ = name
+			if !okR && pureTextFn(c, top, 0) {
+				okR = true // a function that only reads and formats: the marker ends up in a text, nothing else
+			}
 			key := "Holder." + f + "-reader@" + core.FnName(top)
 			if seen[key] {
 				continue
